@@ -203,7 +203,20 @@ pub fn observe(ctx: &Ctx, st: &mut Stats, job: &Job) {
 
 pub fn run(ctx: &Ctx) -> Report {
     let jobs = jobs(ctx);
-    let st = pool::run(&jobs, ctx.remaining(), |st, job, _| observe(ctx, st, job));
+    let st = pool::run(&jobs, ctx.remaining(), |st, job, i| {
+        observe(ctx, st, job);
+        // every fifth job is followed, on the same thread, by a sibling: same payload, one option changed
+        if i % 5 == 0 {
+            if let Some(sib) = job.sibling(&ctx.caps) {
+                let before = st.violations.len();
+                observe(ctx, st, &sib);
+                st.count("sibling_builds_same_payload_other_option", 1);
+                for v in &mut st.violations[before..] {
+                    v.detail = format!("{} (sibling run: same payload as the job before it on this thread, one option changed; the fault may depend on that history)", v.detail);
+                }
+            }
+        }
+    });
     let mut rep = Report::new(
         st,
         "jobs = all 160 (version, level) cells x {capacity-filling, short} non-periodic payloads (thorough: + random lengths per cell), mask rotating over 0..7 and automatic; each build is read out from module values (unmask, zig-zag, de-interleave by the oracle's Table 9) and every block's syndromes S_0..S_{ec-1}, the remainder bits and the codeword count are checked; then floor(ec/2) random/burst codeword errors per block are injected and must be corrected; distinct key = (options, len, payload hash), non-trivial = non-empty payload",
